@@ -992,21 +992,8 @@ def spectrum_case(case):
     # the SAME binner object then describes a second result on a different native grid with the same number of
     # points (as a run over several models does): the second dictionary must describe its own grid, and the first
     # dictionary must still hold what it held
-    wn2 = wn * (1.0 + 0.013 * np.arange(len(wn)) / max(len(wn) - 1, 1)) + 3.0
+    # ... first on a grid with the same point count AND the same first and last point as before, spaced differently
     flux2 = flux[::-1] * 1.01
-    out2 = binner.generate_spectrum_output((wn2, flux2, tau, None), output_size=OutputSize[size])
-    r.check(ref.same_numbers(out2.get('native_wngrid'), wn2), 'b:second-output', 'b/second/native_wngrid/%s' % cls)
-    r.eq(out2.get('native_wlgrid'), ref.wl_of_wn(wn2), 'b:second-output', 'b/second/native_wlgrid/%s' % cls, rtol=1e-14)
-    if 'native_wnwidth' in out2 and len(wn2) > 1:
-        from mc.ref import binning as _rb
-        r.eq(out2['native_wnwidth'], _rb.midpoint_widths(wn2), 'b:second-output', 'b/second/native_wnwidth/%s' % cls,
-             rtol=1e-12)
-    if bl != 'native' and 'binned_spectrum' in out2:
-        fresh2 = make_binner(bl, case['grid'])[0]
-        s2_ = fresh2.bindown(wn2.copy(), flux2.copy())[1]
-        r.check(ref.same_numbers(out2['binned_spectrum'], s2_, exact=False, rtol=1e-12), 'b:second-output',
-                'b/second/binned_spectrum/%s' % cls)
-    # ... and a third one on a grid with the same point count AND the same first and last point, spaced differently
     if len(wn) > 2:
         span = wn[-1] - wn[0]
         wn3 = wn[0] + span * ((wn - wn[0]) / span) ** 1.4
@@ -1020,6 +1007,20 @@ def spectrum_case(case):
             if 'binned_tau' in out3:
                 r.check(ref.same_numbers(out3['binned_tau'], fresh3.bindown(wn3.copy(), tau.copy())[1], exact=False,
                                          rtol=1e-12), 'b:second-output', 'b/third/binned_tau/%s' % cls)
+    # ... then on a grid with other end points
+    wn2 = wn * (1.0 + 0.013 * np.arange(len(wn)) / max(len(wn) - 1, 1)) + 3.0
+    out2 = binner.generate_spectrum_output((wn2, flux2, tau, None), output_size=OutputSize[size])
+    r.check(ref.same_numbers(out2.get('native_wngrid'), wn2), 'b:second-output', 'b/second/native_wngrid/%s' % cls)
+    r.eq(out2.get('native_wlgrid'), ref.wl_of_wn(wn2), 'b:second-output', 'b/second/native_wlgrid/%s' % cls, rtol=1e-14)
+    if 'native_wnwidth' in out2 and len(wn2) > 1:
+        from mc.ref import binning as _rb
+        r.eq(out2['native_wnwidth'], _rb.midpoint_widths(wn2), 'b:second-output', 'b/second/native_wnwidth/%s' % cls,
+             rtol=1e-12)
+    if bl != 'native' and 'binned_spectrum' in out2:
+        fresh2 = make_binner(bl, case['grid'])[0]
+        s2_ = fresh2.bindown(wn2.copy(), flux2.copy())[1]
+        r.check(ref.same_numbers(out2['binned_spectrum'], s2_, exact=False, rtol=1e-12), 'b:second-output',
+                'b/second/binned_spectrum/%s' % cls)
     for k, v in snapshot.items():
         r.check(ref.same_numbers(out[k], v), 'b:first-output-intact', 'b/first-output-overwritten/%s' % cls, key=k)
     r.nontrivial = bl != 'native' or size != 'heavy'
